@@ -23,7 +23,15 @@ use std::io::Error;
 use std::mem::MaybeUninit;
 use std::os::unix::io::AsRawFd;
 use std::ptr;
+#[cfg(sighook_verif)]
+use sighook_shim::sync::atomic::{AtomicBool, Ordering};
+#[cfg(sighook_verif)]
+use sighook_shim::sync::Mutex;
+#[cfg(sighook_verif)]
+use std::sync::Arc;
+#[cfg(not(sighook_verif))]
 use std::sync::atomic::{AtomicBool, Ordering};
+#[cfg(not(sighook_verif))]
 use std::sync::{Arc, Mutex};
 
 use libc::{self, c_int};
@@ -303,6 +311,8 @@ where
     fn flush(&mut self) {
         const SIZE: usize = 1024;
         let mut buff = [0u8; SIZE];
+        #[cfg(sighook_verif)]
+        sighook_shim::hook::pre_drain(self.read.as_raw_fd());
 
         unsafe {
             // Draining the data in the self pipe. We ignore all errors on purpose. This
